@@ -58,16 +58,25 @@ Definition init_tbl (nodes : list node) : list (Z * Z) := map (fun n => (n_id n,
 (* tie-free: the returned partition is the partition of the sequential greedy specification *)
 Definition same_partition (f : list (Z * Z)) (g : Z -> Z) : bool :=
   forallb (fun a => forallb (fun b => Bool.eqb (snd a =? snd b) (g (fst a) =? g (fst b))) f) f.
-(* case: duplicate-free datasets, threshold, nodes, edges, tie-free?, captured trajectory *)
-Definition run_case (c : list Z * Q * list node * list edge * bool * list (list (Z * Z) * bool)) : bool :=
-  match c with (dfs, thr, nodes, E, tiefree, impl) =>
+(* deterministic comparison under a rank order that ranks no two rows of the case equal:
+   lock-step trajectory and final partition = sequential greedy specification *)
+Definition det_ok (le : rank_le) (dfs : list Z) (thr : Q) (nodes : list node) (E : list edge)
+           (impl : list (list (Z * Z) * bool)) : bool :=
+  traces_eq (map fst impl)
+    (oto_trace dfs (df_neighbours (Some thr) E) (max_by le) (max_by le) (S (length impl)) 1 (df_representatives nodes))
+  && same_partition (last (map fst impl) []) (greedy_clusters le dfs (Some thr) nodes E).
+(* case: duplicate-free datasets, threshold, nodes, edges, mode, captured trajectory
+   mode 0: allowed steps only; 1: + deterministic under ORDER BY match_probability desc (tie-free
+   input); 2: + deterministic under the tie-break ORDER BY (emitted SQL has it, no duplicated pair) *)
+Definition run_case (c : list Z * Q * list node * list edge * nat * list (list (Z * Z) * bool)) : bool :=
+  match c with (dfs, thr, nodes, E, mode, impl) =>
     let nbs := df_neighbours (Some thr) E in
     steps_allowed dfs nbs nodes (init_tbl nodes) impl
-    && (if tiefree
-        then traces_eq (map fst impl)
-               (oto_trace dfs nbs first_max first_max (S (length impl)) 1 (df_representatives nodes))
-             && same_partition (last (map fst impl) []) (greedy_clusters dfs (Some thr) nodes E)
-        else true)
+    && match mode with
+       | 1%nat => det_ok le_prob dfs thr nodes E impl
+       | 2%nat => det_ok le_tiebreak dfs thr nodes E impl
+       | _ => true
+       end
   end.
 """
 
@@ -132,6 +141,13 @@ def gen_case(rng, backend, ties: bool, dfs=None):
             "dfs": list(dfs), "form": form, "ties_wanted": ties}
 
 
+def has_dup_pairs(case):
+    """The same pair of records listed twice with the same probability (never produced by
+    predict(); the tie-break of the ORDER BY cannot separate such rows)."""
+    keys = [(min(i, j), max(i, j), p) for i, j, p in case["edges"]]
+    return len(set(keys)) != len(keys)
+
+
 def tie_free(case):
     ps = [p for _, _, p in case["edges"]]
     return len(set(ps)) == len(ps)
@@ -150,6 +166,11 @@ def run_impl(case):
     orig = api.sql_pipeline_to_splink_dataframe
 
     def wrapped(pipeline, use_cache=True):
+        for cte in getattr(pipeline, "queue", []):
+            if re.fullmatch(r"__splink__df_ranked_\d+", cte.output_table_name or ""):
+                m = order_mode(cte.sql)
+                if m not in case.setdefault("_order_modes", []):
+                    case["_order_modes"].append(m)
         d = orig(pipeline, use_cache)
         if re.fullmatch(r"__splink__df_representatives_\d+", d.templated_name):
             rows = d.as_record_dict()
@@ -175,6 +196,50 @@ def run_impl(case):
         dp, duplicate_free_datasets=list(case["dfs"]), threshold_match_probability=case["thr"] / DEN)
     final = [(r["cluster_id"], r["source_dataset"], r["unique_id"]) for r in out.as_record_dict()]
     return trace, final
+
+
+# --------------------------------------------------------------------------------------------
+# T: the ORDER BY of the two row_number() windows, read from the SQL the real code emits
+LO = "case when neighbours.node_id < neighbours.neighbour then neighbours.node_id else neighbours.neighbour end"
+HI = "case when neighbours.node_id < neighbours.neighbour then neighbours.neighbour else neighbours.node_id end"
+_SHAPES = {}
+
+
+def _keys(order_sql):
+    import sqlglot
+    import sqlglot.expressions as E
+    w = sqlglot.parse_one(f"select row_number() over (partition by x order by {order_sql}) from t").find(E.Window)
+    return [k.sql() for k in w.args["order"].expressions]
+
+
+def order_mode(sql):
+    """'prob' | 'tiebreak' | 'unknown:<why>'  (fail closed on any other shape)."""
+    import sqlglot
+    import sqlglot.expressions as E
+    if not _SHAPES:
+        _SHAPES["prob"] = _keys("match_probability desc")
+        _SHAPES["tiebreak"] = _keys(f"match_probability desc, {LO}, {HI}")
+    try:
+        wins = list(sqlglot.parse_one(sql).find_all(E.Window))
+    except Exception as e:  # noqa: BLE001
+        return f"unknown:parse {e!r}"
+    if len(wins) != 2:
+        return f"unknown:{len(wins)} windows"
+    parts = sorted(",".join(p.sql() for p in (w.args.get("partition_by") or [])) for w in wins)
+    if parts != ["l.representative", "r.representative"]:
+        return f"unknown:partitions {parts}"
+    modes = set()
+    for w in wins:
+        if not isinstance(w.this, E.RowNumber) or w.args.get("order") is None:
+            return "unknown:not row_number() over (... order by ...)"
+        keys = [k.sql() for k in w.args["order"].expressions]
+        m = [name for name, shape in _SHAPES.items() if shape == keys]
+        if not m:
+            return f"unknown:order by {keys}"
+        modes.add(m[0])
+    if len(modes) != 1:
+        return "unknown:the two windows use different ORDER BY clauses"
+    return modes.pop()
 
 
 def ranks(case):
@@ -269,6 +334,8 @@ def oracle(case, final):
             adj.setdefault(a, set()).add(b)
             adj.setdefault(b, set()).add(a)
     for c, ms in members.items():
+        if has_dup_pairs(case):
+            break           # connectivity is only claimed for tables listing each pair once per probability
         seen, todo = {ms[0]}, [ms[0]]
         while todo:
             x = todo.pop()
@@ -341,12 +408,14 @@ def case_term(case, trace, final):
     cdfs = coq_list([coq_Z(ds_idx[d]) for d in case["dfs"]], "Z")
     ctr = coq_list(["(" + coq_list([f"({coq_Z(a)}, {coq_Z(b)})" for a, b in sorted(tb.items())], "(Z * Z)") + ", " + coq_bool(c) + ")"
                     for tb, c in zip(tbls, chk)], "(list (Z * Z) * bool)")
-    term = f"({cdfs}, {coq_Q(Fraction(case['thr'], DEN))}, {cnodes}, {cedges}, {coq_bool(tie_free(case))}, {ctr})"
-    return {"term": term, "tables": tbls, "checked_steps": chk, "rank": rk}, problems
+    om = case.get("_order_modes", [])
+    mode = 1 if tie_free(case) else (2 if om == ["tiebreak"] and not has_dup_pairs(case) else 0)
+    term = f"({cdfs}, {coq_Q(Fraction(case['thr'], DEN))}, {cnodes}, {cedges}, {mode}%nat, {ctr})"
+    return {"term": term, "tables": tbls, "checked_steps": chk, "rank": rk, "mode": mode}, problems
 
 
 def features_of(case, kind):
-    return {"kind": kind, "ties": not tie_free(case), "backend": case["backend"]}
+    return {"kind": kind, "ties": not tie_free(case), "backend": case["backend"], "duplicate_pair_rows": has_dup_pairs(case)}
 
 
 def shrink(case, fails):
@@ -410,8 +479,9 @@ WITNESS = {"names": ["a", "b", "c"], "nodes": [("a", 0), ("a", 1), ("a", 2), ("b
            "edges": [(0, 3, 700), (1, 4, 900), (2, 4, 900), (3, 4, 900)], "thr": 512, "dfs": ["b"], "form": "single"}
 
 
-# KF-C12-ties-disconnected: three tied edges at a hub; SQLite realises the disconnected cluster
-# deterministically (DuckDB for some row orders)
+# FX-C12-ties-disconnected (fixed by the tie-break in the ORDER BY of both windows): three tied edges
+# at a hub; without the tie-break SQLite returned a disconnected cluster deterministically (DuckDB
+# for some row orders).  Replayed on every run: a regression is reported as a plain violation.
 KF_WITNESS = {"backend": "sqlite", "names": ["b", "c", "ds_x"],
               "nodes": [("b", 1), ("c", 2), ("b", 30), ("c", 11), ("ds_x", 101)],
               "edges": [(3, 4, 800), (1, 4, 800), (2, 4, 800), (1, 0, 845)],
@@ -430,7 +500,7 @@ def known_witnesses(ctx: Ctx):
         ctx.violation("cluster_using_single_best_links: with tied probabilities a returned cluster is not connected "
                       "(row_number windows without tie-breaker)", rep, features_of(case, "connectivity"))
     else:
-        ctx.expect_known("KF-C12-ties-disconnected", False, "the witness now yields connected clusters")
+        ctx.expect_known("FX-C12-ties-disconnected", False, "the witness yields connected clusters")
 
 
 def correspondence(ctx: Ctx):
@@ -475,6 +545,7 @@ def correspondence(ctx: Ctx):
         ctx.hist("n_duplicate_free", len(case["dfs"]))
         ctx.hist("iterations", len(trace))
         ctx.hist("form", case["form"])
+        ctx.hist("duplicate_pair_rows", has_dup_pairs(case))
         for kind, detail in problems:
             report(case, kind, detail, trace, final, info)
         if info is not None:
@@ -511,6 +582,15 @@ def correspondence(ctx: Ctx):
                 c["threads"] = ctx.rng.randint(1, 16)
             one(c)
     ctx.cov["steps_not_enumerated"] = skipped_steps
+    shapes = sorted({m for case, _, _, _ in metas for m in case.get("_order_modes", [])})
+    ctx.cov["order_by_of_rank_windows"] = shapes
+    ok_shape = bool(shapes) and all(m in ("prob", "tiebreak") for m in shapes) and len(shapes) == 1
+    ctx.obligation("T: ORDER BY of the two row_number() windows in the emitted SQL is one of the two modelled rank orders", ok_shape, str(shapes))
+    if not ok_shape:
+        ctx.violation("the ORDER BY of the rank windows emitted by one_to_one_clustering.py is not a modelled rank order: " + str(shapes),
+                      {"broken": "translator c12 order_mode", "shapes": shapes}, {"untranslatable": True}, found_input=False)
+    for case, _, _, info in metas:
+        ctx.hist("deterministic_mode", info["mode"])
 
     bad, errs = ctx.eval_cases("C12_x", HEADER, terms, "run_case", shard=60)
     for e in errs:
